@@ -161,7 +161,7 @@ func (s *Snapshot) applyOverlay(cfg GenConfig) error {
 		if err != nil || info.IsDir() {
 			return err
 		}
-		if !(strings.HasSuffix(p, ".go") || strings.HasSuffix(p, ".yml")) {
+		if !(strings.HasSuffix(p, ".go") || strings.HasSuffix(p, ".yml") || strings.HasSuffix(p, ".graphqls") || strings.HasSuffix(p, ".graphql")) { // SDL too: @goModel/@goEnum name Go packages
 			return nil
 		}
 		b, err := os.ReadFile(p)
